@@ -29,6 +29,19 @@ func NewTableWriter(fs storage.FileSystem, id int64) *TableWriter {
 	return &TableWriter{fs: fs, id: atomicNum}
 }
 
+// SkipPast continues the table numbering after the tables of a restored level
+// list so that files written next don't replace files the list references.
+func (c *TableWriter) SkipPast(ll *LevelList) {
+	for level := range ll.DescendLevels() {
+		for t := range level.AllTables() {
+			var id int64
+			if _, err := fmt.Sscanf(t.Name(), "%d.sst", &id); err == nil && id >= c.id.Load() {
+				c.id.Store(id + 1)
+			}
+		}
+	}
+}
+
 func (c *TableWriter) Write(entries iter.Seq[kv.Entry]) (*Table, error) {
 	reservedNum := c.id.Add(1) - 1
 	f := c.fs.New(fmt.Sprintf("%06d.sst", reservedNum))
